@@ -39,6 +39,7 @@ def op_str(op):
     k = op[0]
     ints = lambda l: ','.join(str(x) for x in l) if l else '-'
     if k == 'push': return f'push {op[1]} {op[2]:x} {gen.show(op[3])}'
+    if k == 'trypush': return f'trypush {op[1]} {op[2]:x} {gen.show(op[3])}'
     if k in ('probe', 'probeo', 'read', 'clear', 'heap', 'serde', 'allocs'): return f'{k} {op[1]}'
     if k == 'merge': return f'merge {op[1]} {ints(op[2])}'
     if k in ('clone', 'clonefrom'): return f'{k} {op[1]} {op[2]}'
@@ -100,6 +101,15 @@ def ref_oracle(e, ops, obs, clauses=(), model_obs=None):
                 return None
             if len(g) != 1 or not g[0].startswith('i='): return f'op {t} ({op_str(op)}): push did not return an index: {g}'
             ref.log[op[1]].append(op[3])
+        elif k == 'trypush':
+            # a push the region may refuse by panicking; whether it does is the model's word (compared by the
+            # correspondence) -- here: a refusal stores nothing and must leave every earlier item as it was
+            if g == ['P']:
+                for c in clauses:
+                    f = c(t, ('refused',) + tuple(op[1:]), g, ref, scratch)
+                    if f: return f
+            elif len(g) == 1 and g[0].startswith('i='): ref.log[op[1]].append(op[3])
+            else: return f'op {t} ({op_str(op)}): push neither returned an index nor was refused: {g}'
         elif k in ('probe', 'probeo', 'read'):
             log = ref.log[op[1]]
             if len(g) != len(log): return f'op {t}: {len(g)} reads for {len(log)} issued indices'
@@ -2104,6 +2114,16 @@ def c06(ctx):
             ops2 = list(ops) + [('push', 3, 0, [alphabet[0], unc])]
             cases.append((name, ops)); note_case(res, name, ops)
             cases.append((name, ops2))
+            # a refusal is a clean one: with the bit cursor at every position within a byte, an item holding an
+            # uncovered symbol is refused and every earlier item still reads as before, later pushes continue where the
+            # accepted ones ended, and the next generation is built from the accepted symbols only
+            ops5 = train_ops(0, counts) + [('merge', 2, [0])]
+            for j in range(9):
+                ops5 += [('push', 2, 0, [rng.choice(alphabet) for _ in range(rng.choice([1, 2, 3]))]),
+                         ('trypush', 2, rng.randrange(4), [rng.choice(alphabet) for _ in range(j % 3)] + [unc] + [alphabet[0]] * (j % 2)),
+                         ('probe', 2)]
+            ops5 += use_ops(2, alphabet, None) + [('merge', 3, [2])] + use_ops(3, alphabet, None)
+            cases.append((name, ops5)); note_case(res, name, ops5)
             # clear: raw mode again
             ops3 = ops[:len(ops) // 2] + [('clear', 2), ('push', 2, 0, [unc, unc]), ('push', 2, 0, []), ('probe', 2)]
             cases.append((name, ops3))
